@@ -933,6 +933,28 @@ impl IndexManager {
     // Mutation methods for manager-as-mutator pattern
     // =========================================================================
 
+    /// Append an update entry to a bucket's update section.
+    ///
+    /// If the update section is full, flushes it (merge into the sorted
+    /// section) and retries once, like `add_entry`. Returns `false` if the
+    /// bucket does not exist or the entry could not be appended.
+    fn append_update(&mut self, index_id: u8, entry: UpdateEntry) -> bool {
+        let Some(index) = self.indices.get_mut(&index_id) else {
+            return false;
+        };
+        if index.update_section.append(entry.clone()) {
+            return true;
+        }
+
+        // Update section full -- flush (merge into sorted), then retry
+        if self.flush_updates_for_bucket(index_id).is_err() {
+            return false;
+        }
+        self.indices
+            .get_mut(&index_id)
+            .is_some_and(|index| index.update_section.append(entry))
+    }
+
     /// Remove an entry by encoding key.
     ///
     /// Writes a delete tombstone (status 3) to the update section.
@@ -952,18 +974,13 @@ impl IndexManager {
         truncated_key[..9.min(key_bytes.len())]
             .copy_from_slice(&key_bytes[..9.min(key_bytes.len())]);
 
-        if let Some(index) = self.indices.get_mut(&index_id) {
-            let tombstone = UpdateEntry::new(
-                truncated_key,
-                entry.archive_location,
-                entry.size,
-                UpdateStatus::Delete,
-            );
-            index.update_section.append(tombstone);
-            return true;
-        }
-
-        false
+        let tombstone = UpdateEntry::new(
+            truncated_key,
+            entry.archive_location,
+            entry.size,
+            UpdateStatus::Delete,
+        );
+        self.append_update(index_id, tombstone)
     }
 
     /// Check if an entry exists by encoding key
@@ -994,20 +1011,16 @@ impl IndexManager {
         truncated_key[..9.min(key_bytes.len())]
             .copy_from_slice(&key_bytes[..9.min(key_bytes.len())]);
 
-        if let Some(index) = self.indices.get_mut(&index_id) {
-            let entry = UpdateEntry::new(
-                truncated_key,
-                ArchiveLocation {
-                    archive_id,
-                    archive_offset,
-                },
-                size,
-                UpdateStatus::Normal,
-            );
-            return index.update_section.append(entry);
-        }
-
-        false
+        let entry = UpdateEntry::new(
+            truncated_key,
+            ArchiveLocation {
+                archive_id,
+                archive_offset,
+            },
+            size,
+            UpdateStatus::Normal,
+        );
+        self.append_update(index_id, entry)
     }
 
     /// Update an entry's status byte without changing its location.
@@ -1028,13 +1041,8 @@ impl IndexManager {
         truncated_key[..9.min(key_bytes.len())]
             .copy_from_slice(&key_bytes[..9.min(key_bytes.len())]);
 
-        if let Some(index) = self.indices.get_mut(&index_id) {
-            let update =
-                UpdateEntry::new(truncated_key, entry.archive_location, entry.size, status);
-            return index.update_section.append(update);
-        }
-
-        false
+        let update = UpdateEntry::new(truncated_key, entry.archive_location, entry.size, status);
+        self.append_update(index_id, update)
     }
 
     /// Flush the update section for a bucket into the sorted section.
@@ -1516,6 +1524,56 @@ mod tests {
         // Remove second entry
         assert!(manager.remove_entry(&ekey2));
         assert_eq!(manager.entry_count(), 0);
+    }
+
+    #[test]
+    fn test_mutators_flush_full_update_section() {
+        let temp_dir = tempfile::tempdir().expect("tempdir");
+        let mut manager = IndexManager::new(temp_dir.path());
+
+        // Keys with k0 == k1 and k8 == 0x11 all hash to bucket 0.
+        let key = |n: u16| {
+            let [hi, lo] = n.to_be_bytes();
+            let mut bytes = [0u8; 16];
+            bytes[0] = hi;
+            bytes[1] = hi;
+            bytes[2] = lo;
+            bytes[3] = lo;
+            bytes[8] = 0x11;
+            EncodingKey::from_bytes(bytes)
+        };
+        let capacity = u16::try_from(
+            update::MIN_UPDATE_SECTION_SIZE / update::UPDATE_PAGE_SIZE * update::ENTRIES_PER_PAGE,
+        )
+        .expect("capacity fits u16");
+
+        // Fill the update section of bucket 0 exactly.
+        for n in 0..capacity {
+            manager
+                .add_entry(&key(n), 1, u32::from(n), 1)
+                .expect("add should succeed");
+        }
+
+        // Every mutator must still take effect when the section is full.
+        assert!(manager.remove_entry(&key(5)));
+        assert!(!manager.has_entry(&key(5)));
+        assert_eq!(manager.entry_count(), usize::from(capacity) - 1);
+
+        for n in 0..capacity {
+            assert!(manager.update_entry(&key(6), 2, u32::from(n), 2));
+        }
+        assert!(manager.update_entry(&key(7), 3, 30, 300));
+        let entry = manager.lookup(&key(7)).expect("entry should exist");
+        assert_eq!(
+            (entry.archive_id(), entry.archive_offset(), entry.size),
+            (3, 30, 300)
+        );
+
+        for _ in 0..capacity {
+            assert!(manager.update_entry_status(&key(6), UpdateStatus::DataNonResident));
+        }
+        assert!(manager.update_entry_status(&key(8), UpdateStatus::Delete));
+        assert!(!manager.has_entry(&key(8)));
     }
 
     #[test]
